@@ -116,6 +116,7 @@ MON_KEYS = (
     "verif_n_nonfinite",  # steps in which some non-finite intermediate overlap appeared
     "verif_n_faults",     # fault slots that actually fired
     "verif_max_abs_field",
+    "verif_n_onebody",    # CPMC: one-body half steps monitored
 )
 
 BAD_CODES = {
@@ -225,6 +226,23 @@ def harness_class(base_name):
             )
             pd["verif_step"] = step + 1.0
             return pd
+
+    if hasattr(base, "propagate_one_body"):
+        # CPMC: the one-body half step divides by the stored overlap as well (at its entry the
+        # stored value is the product of the incremental ratios of the site updates)
+        def propagate_one_body(self, trial, ham_data, prop_data, wave_data):
+            pd = prop_data
+            if "verif_incoh" in pd:
+                fresh = trial.calc_overlap(pd["walkers"], wave_data)
+                cached = pd["overlaps"]
+                live = (pd["weights"] > 0) & jnp.isfinite(jnp.abs(cached)) & (jnp.abs(cached) > 0)
+                rel = jnp.where(live, jnp.abs(cached - fresh) / jnp.where(live, jnp.abs(cached), 1.0), 0.0)
+                rel = jnp.where(jnp.isnan(rel), jnp.inf, rel)
+                pd["verif_incoh"] = jnp.maximum(pd["verif_incoh"], jnp.max(rel))
+                pd["verif_n_onebody"] = pd["verif_n_onebody"] + 1.0
+            return base.propagate_one_body(self, trial, ham_data, pd, wave_data)
+
+        Harness.propagate_one_body = partial(jit, static_argnums=(0, 1))(propagate_one_body)
 
     Harness.__name__ = "Harness_" + base_name
     Harness.__qualname__ = Harness.__name__
